@@ -182,6 +182,16 @@ def run(ctx):
             pva = tb.provenance(a, through_calls=False)
             if pva.callees() == pv.callees() and pva.callees():
                 same = True
+        # ... and for the very actor the transaction will commit as (actors[actor_index])
+        ai = util.op_place(rv["o"][rv["fields"].index("actor_index")])
+        same_actor = False
+        for rb, t in rm:
+            pva = tb.provenance(t["args"][1], through_calls=True)
+            if ai is not None and tb.origin(ai["l"], tuple(ai["p"]))[0] in pva.locals:
+                same_actor = True
+        ctx.ob("R3-local", "transaction_args|remove_actor_branch_from targets the committing actor", same_actor, s["sp"],
+               "the actor passed to remove_actor_branch_from is actors[actor_index] of the TransactionArgs being built" if same_actor else
+               "the actor whose queued branch is removed does not derive from the actor_index the transaction commits as")
         ctx.ob("R3-local", "transaction_args|remove_actor_branch_from(actor, seq) dominates", okr and same, s["sp"],
                "queued conflicting branch removed before the sequence number is claimed" if okr and same else "remove_actor_branch_from missing on some path or called with a different seq")
     # isolate_actor's seq
